@@ -1,8 +1,10 @@
 // E12 correspondence harness (C16): typed tools through a real in-memory client/server pair.
 //
-// A case = one registered typed tool (Go In/Out types from a fixed family, derived or explicit
-// schemas from the family grammar) and a handful of tools/call requests with generated arguments and
-// handler behaviours. Every record is produced by interpreting an op line (ttRun), so that generated
+// A case = a history of servers (each on one of the case's shared SchemaCaches, or on none) and
+// typed tools registered on them (Go In/Out types from a fixed family, derived or explicit schemas from
+// the family grammar, explicit schemas handed over raw or as — possibly re-used — *jsonschema.Schema
+// pointers), interleaved with tools/call requests with generated arguments and handler behaviours
+// addressed to any tool of the current server. Every record is produced by interpreting an op line (ttRun), so that generated
 // cases, corpus files and replays go through the same code.
 package mcp
 
@@ -90,6 +92,7 @@ type ttCallSpec struct {
 }
 type ttObs struct {
 	inv  int
+	who  string // name of the tool whose handler ran
 	seen []byte
 	hout []byte // json.Marshal(out) as the handler returned it (nil pointer: zero value of the element type)
 	bad  string
@@ -102,12 +105,13 @@ type ttCtl struct {
 type ttReg struct {
 	name      string
 	inTy, out reflect.Type
-	add       func(s *Server, name string, isch, osch any, ctl *ttCtl) (*Tool, ToolHandler, error)
+	add       func(s *Server, name string, isch, osch any, ctl *ttCtl) error
 }
 
-func ttHandle[In, Out any](ctl *ttCtl, in In) (res *CallToolResult, out Out, err error) {
+func ttHandle[In, Out any](ctl *ttCtl, name string, in In) (res *CallToolResult, out Out, err error) {
 	o, c := ctl.obs, ctl.cur
 	o.inv++
+	o.who = name
 	o.seen, _ = json.Marshal(in)
 	switch c.herr {
 	case 1:
@@ -150,23 +154,18 @@ func ttHandle[In, Out any](ctl *ttCtl, in In) (res *CallToolResult, out Out, err
 
 func ttMk[In, Out any](name string) ttReg {
 	return ttReg{name: name, inTy: reflect.TypeFor[In](), out: reflect.TypeFor[Out](),
-		add: func(s *Server, name string, isch, osch any, ctl *ttCtl) (tool *Tool, probe ToolHandler, err error) {
+		add: func(s *Server, name string, isch, osch any, ctl *ttCtl) (err error) {
 			defer func() {
 				if r := recover(); r != nil {
 					err = fmt.Errorf("panic: %v", r)
 				}
 			}()
 			h := func(ctx context.Context, req *CallToolRequest, in In) (*CallToolResult, Out, error) {
-				return ttHandle[In, Out](ctl, in)
+				return ttHandle[In, Out](ctl, name, in)
 			}
-			// the wrapper, for the crash probe and to read the effective schemas back
-			tool, probe, err = toolForErr(&Tool{Name: name, InputSchema: isch, OutputSchema: osch}, h, nil)
-			if err != nil {
-				return nil, nil, err
-			}
-			// the registration under test: the public generic API
+			// the registration under test: the public generic API (it panics when the schemas do not resolve)
 			AddTool(s, &Tool{Name: name, InputSchema: isch, OutputSchema: osch}, h)
-			return tool, probe, nil
+			return nil
 		}}
 }
 
@@ -1256,40 +1255,78 @@ func (p *ttRawParams) SetMeta(map[string]any)       {}
 func (p *ttRawParams) GetProgressToken() any        { return nil }
 func (p *ttRawParams) SetProgressToken(any)         {}
 
-type ttWorld struct {
-	ctx    context.Context
-	srv    *Server
-	cs     *ClientSession
-	ss     *ServerSession
-	tap    *ttTap
-	ctl    *ttCtl
-	n      int
-	name   string
-	probe  ToolHandler
-	inRS   *jsonschema.Resolved
+// a tool registered on the current server
+type ttToolInfo struct {
+	probe  ToolHandler          // the handler the server holds (the wrapper built by AddTool)
+	inRS   *jsonschema.Resolved // the ADVERTISED schemas, resolved by the harness: jsonschema-go's own verdicts
 	outRS  *jsonschema.Resolved
 	outObj bool
 	outPtr bool
 	hasOut bool
 }
 
+type ttPtr struct {
+	s    *jsonschema.Schema
+	text string // json.Marshal(s) when it was first handed over
+}
+
+type ttWorld struct {
+	t   *testing.T
+	ctx context.Context
+	srv *Server
+	cs  *ClientSession
+	ss  *ServerSession
+	tap *ttTap
+	ctl *ttCtl
+	// per case
+	caches map[int]*SchemaCache
+	ptrs   map[string]*ttPtr
+	tools  map[string]*ttToolInfo
+	last   string
+}
+
 func ttNewWorld(t *testing.T) *ttWorld {
-	ctx := context.Background()
-	w := &ttWorld{ctx: ctx, tap: &ttTap{}, ctl: &ttCtl{}}
-	w.srv = NewServer(&Implementation{Name: "tt-server", Version: "1"}, nil)
+	return &ttWorld{t: t, ctx: context.Background(), tap: &ttTap{}, ctl: &ttCtl{}}
+}
+
+// reset starts a case: no caches, no schema pointers, no server (one without a cache is made on demand).
+func (w *ttWorld) reset() {
+	w.closeServer()
+	w.caches, w.ptrs = map[int]*SchemaCache{}, map[string]*ttPtr{}
+}
+
+func (w *ttWorld) closeServer() {
+	if w.cs != nil {
+		w.cs.Close()
+		w.ss.Wait()
+	}
+	w.srv, w.cs, w.ss = nil, nil, nil
+	w.tools, w.last = map[string]*ttToolInfo{}, ""
+}
+
+// server makes a new Server (and a client connected to it) on cache k of the case (0: no cache).
+func (w *ttWorld) server(k int) {
+	w.closeServer()
+	var opts *ServerOptions
+	if k > 0 {
+		if w.caches[k] == nil {
+			w.caches[k] = NewSchemaCache()
+		}
+		opts = &ServerOptions{SchemaCache: w.caches[k]}
+	}
+	w.srv = NewServer(&Implementation{Name: "tt-server", Version: "1"}, opts)
 	ct, st := NewInMemoryTransports()
-	ss, err := w.srv.Connect(ctx, st, nil)
+	ss, err := w.srv.Connect(w.ctx, st, nil)
 	if err != nil {
-		t.Fatal(err)
+		w.t.Fatal(err)
 	}
 	w.ss = ss
 	c := NewClient(&Implementation{Name: "tt-client", Version: "1"}, nil)
-	cs, err := c.Connect(ctx, &ttTapTransport{ct, w.tap}, nil)
+	cs, err := c.Connect(w.ctx, &ttTapTransport{ct, w.tap}, nil)
 	if err != nil {
-		t.Fatal(err)
+		w.t.Fatal(err)
 	}
 	w.cs = cs
-	return w
 }
 
 func ttKV(toks []string, k string) string {
@@ -1318,79 +1355,172 @@ func ttResolve(schemaJSON []byte) (*jsonschema.Resolved, *jsonschema.Schema, err
 	return rs, &s, err
 }
 
-// ttTool registers the tool described by the op. Returns the op as it should be recorded (with the
-// effective schemas filled in), the observation and tags.
-func (w *ttWorld) tool(toks []string) (op string, obs string, tags []string) {
-	if w.name != "" {
-		w.srv.RemoveTools(w.name)
+// elemType strips one pointer, like setSchema does.
+func ttElem(t reflect.Type) reflect.Type {
+	if t.Kind() == reflect.Pointer {
+		return t.Elem()
 	}
-	w.probe, w.inRS, w.outRS, w.name = nil, nil, nil, ""
+	return t
+}
+
+// ttDerived is jsonschema-go's inference for the Go type (pointers stripped) as a token; "-" for `any`.
+func ttDerived(t reflect.Type) string {
+	t = ttElem(t)
+	if t.Kind() == reflect.Interface {
+		return "-"
+	}
+	s, err := jsonschema.ForType(t, &jsonschema.ForOptions{})
+	if err != nil {
+		return "-"
+	}
+	b, _ := json.Marshal(s)
+	return "x" + hx(b)
+}
+
+// advertised fetches tools/list from the server through the client connection (no client-side cache)
+// and returns the raw inputSchema / outputSchema of the named tool.
+func (w *ttWorld) advertised(name string) (in, out json.RawMessage, err error) {
+	w.tap.mu.Lock()
+	w.tap.last, w.tap.err = nil, nil
+	w.tap.mu.Unlock()
+	if _, err = handleSend[*ListToolsResult](w.ctx, methodListTools, newClientRequest(w.cs, Params(&ListToolsParams{}))); err != nil {
+		return nil, nil, err
+	}
+	w.tap.mu.Lock()
+	raw := w.tap.last
+	w.tap.mu.Unlock()
+	var lr struct {
+		Tools []struct {
+			Name         string          `json:"name"`
+			InputSchema  json.RawMessage `json:"inputSchema"`
+			OutputSchema json.RawMessage `json:"outputSchema"`
+		} `json:"tools"`
+	}
+	if err = json.Unmarshal(raw, &lr); err != nil {
+		return nil, nil, err
+	}
+	for _, t := range lr.Tools {
+		if t.Name == name {
+			return t.InputSchema, t.OutputSchema, nil
+		}
+	}
+	return nil, nil, errors.New("tool not listed")
+}
+
+// tool registers the tool described by the op on the current server. Returns the op as it is recorded
+// (with the facts about the Go types filled in: ity oty ikey okey ider oder, and the declared schemas as
+// they were actually handed over), the observation and tags.
+func (w *ttWorld) tool(toks []string) (op string, obs string, tags []string) {
+	if w.srv == nil {
+		w.server(0)
+	}
 	reg := ttRegByName(ttKV(toks, "reg"))
 	if reg == nil {
 		return strings.Join(toks, " "), "bad-reg", nil
 	}
-	form := ttKV(toks, "form") // how an explicit schema is handed to AddTool: raw | schema
-	mk := func(src, tok string) (any, error) {
+	name := ttKV(toks, "name")
+	if name == "" {
+		name = "t"
+	}
+	form := ttKV(toks, "form") // how a declared schema is handed to AddTool: raw | schema
+	// mk builds the value for Tool.InputSchema / Tool.OutputSchema and the text of what it declares
+	mk := func(src, tok, ptr string) (any, string, error) {
 		if src != "e" {
-			return nil, nil
+			return nil, "-", nil
 		}
 		b, ok := ttUnhex(tok)
 		if !ok {
-			return nil, errors.New("bad hex")
+			return nil, "", errors.New("bad hex")
 		}
 		if form == "schema" {
+			if p := w.ptrs[ptr]; p != nil && ptr != "-" && ptr != "" {
+				return p.s, p.text, nil // the same *jsonschema.Schema again
+			}
 			var s jsonschema.Schema
 			if err := json.Unmarshal(b, &s); err != nil {
-				return nil, err
+				return nil, "", err
 			}
-			return &s, nil
+			// what is declared is the content of the struct (a float64 bound is what it is)
+			sb, err := json.Marshal(&s)
+			if err != nil {
+				return nil, "", err
+			}
+			text := "x" + hx(sb)
+			if ptr != "-" && ptr != "" {
+				w.ptrs[ptr] = &ttPtr{&s, text}
+			}
+			return &s, text, nil
 		}
-		return json.RawMessage(b), nil
+		return json.RawMessage(b), "x" + hx(b), nil
 	}
 	isrc, osrc := ttKV(toks, "isrc"), ttKV(toks, "osrc")
-	isch, err1 := mk(isrc, ttKV(toks, "isch"))
-	osch, err2 := mk(osrc, ttKV(toks, "osch"))
+	iptr, optr := ttKV(toks, "iptr"), ttKV(toks, "optr")
+	if iptr == "" {
+		iptr = "-"
+	}
+	if optr == "" {
+		optr = "-"
+	}
+	isch, itext, err1 := mk(isrc, ttKV(toks, "isch"), iptr)
+	osch, otext, err2 := mk(osrc, ttKV(toks, "osch"), optr)
 	if err1 != nil || err2 != nil {
 		return strings.Join(toks, " "), "bad-schema-token", nil
 	}
-	w.n++
-	name := fmt.Sprintf("t%d", w.n)
-	tool, probe, err := reg.add(w.srv, name, isch, osch, w.ctl)
-	tags = []string{"tool", "reg:" + reg.name, "isrc:" + isrc, "osrc:" + osrc}
-	if err != nil {
-		return strings.Join(toks, " "), "addtool-error", append(tags, "addtool-error")
-	}
-	w.name, w.probe = name, probe
-	ib, _ := json.Marshal(tool.InputSchema)
-	w.inRS, _, err = ttResolve(ib)
-	if err != nil {
-		return strings.Join(toks, " "), "harness-resolve-error", tags
-	}
-	oTok := "-"
-	w.hasOut = tool.OutputSchema != nil
-	w.outObj = false
-	if w.hasOut {
-		ob, _ := json.Marshal(tool.OutputSchema)
-		var os *jsonschema.Schema
-		w.outRS, os, err = ttResolve(ob)
-		if err != nil {
-			return strings.Join(toks, " "), "harness-resolve-error", tags
-		}
-		w.outObj = os.Type == "object"
-		oTok = "x" + hx(ob)
-	}
-	w.outPtr = reg.out.Kind() == reflect.Pointer
 	ity, _ := json.Marshal(ttDescribe(reg.inTy).json())
 	oty, _ := json.Marshal(ttDescribe(reg.out).json())
-	op = fmt.Sprintf("tool reg=%s form=%s isrc=%s osrc=%s ity=x%s isch=x%s oty=x%s osch=%s",
-		reg.name, form, isrc, osrc, hx(ity), hx(ib), hx(oty), oTok)
-	return op, "ok", tags
+	op = fmt.Sprintf("tool name=%s reg=%s form=%s isrc=%s osrc=%s isch=%s osch=%s iptr=%s optr=%s ity=x%s oty=x%s ikey=%s okey=%s ider=%s oder=%s",
+		name, reg.name, form, isrc, osrc, itext, otext, iptr, optr, hx(ity), hx(oty),
+		hxs(ttElem(reg.inTy).String()), hxs(ttElem(reg.out).String()), ttDerived(reg.inTy), ttDerived(reg.out))
+	tags = []string{"tool", "reg:" + reg.name, "isrc:" + isrc, "osrc:" + osrc}
+	if w.srv.opts.SchemaCache != nil {
+		tags = append(tags, "cache")
+	}
+	if _, again := w.tools[name]; again {
+		tags = append(tags, "replace")
+	}
+	if err := reg.add(w.srv, name, isch, osch, w.ctl); err != nil {
+		return op, "addtool-error", append(tags, "addtool-error")
+	}
+	w.srv.mu.Lock()
+	st, ok := w.srv.tools.get(name)
+	w.srv.mu.Unlock()
+	if !ok {
+		return op, "not-registered", tags
+	}
+	info := &ttToolInfo{probe: st.handler, outPtr: reg.out.Kind() == reflect.Pointer}
+	ib, ob, err := w.advertised(name)
+	if err != nil {
+		return op, "list-error", tags
+	}
+	if info.inRS, _, err = ttResolve(ib); err != nil {
+		return op, "harness-resolve-error", tags
+	}
+	po := "-"
+	info.hasOut = len(ob) > 0
+	if info.hasOut {
+		var os *jsonschema.Schema
+		if info.outRS, os, err = ttResolve(ob); err != nil {
+			return op, "harness-resolve-error", tags
+		}
+		info.outObj = os.Type == "object"
+		po = "x" + hx(ob)
+	}
+	w.tools[name], w.last = info, name
+	return op, fmt.Sprintf("ok pi=x%s po=%s", hx(ib), po), tags
 }
 
 // ttCall performs one tools/call described by the op.
 func (w *ttWorld) call(toks []string) (obs string, tags []string) {
-	if w.name == "" {
+	name := ttKV(toks, "tool")
+	if name == "" {
+		name = w.last
+	}
+	ti := w.tools[name]
+	if ti == nil {
 		return "no-tool", nil
+	}
+	if name != w.last {
+		tags = append(tags, "earlier-tool")
 	}
 	spec := &ttCallSpec{content: ttKV(toks, "content")}
 	spec.herr, _ = strconv.Atoi(ttKV(toks, "herr"))
@@ -1408,7 +1538,7 @@ func (w *ttWorld) call(toks []string) (obs string, tags []string) {
 	var params json.RawMessage
 	var argsVal any
 	argShape := "obj"
-	nameJSON, _ := json.Marshal(w.name)
+	nameJSON, _ := json.Marshal(name)
 	if a == "absent" {
 		params = json.RawMessage(fmt.Sprintf(`{"name":%s}`, nameJSON))
 		argShape = "absent"
@@ -1440,7 +1570,7 @@ func (w *ttWorld) call(toks []string) (obs string, tags []string) {
 	}
 	lib := "-"
 	if argShape != "nonobj" {
-		lib = ttLib(w.inRS, ttExact(argsVal))
+		lib = ttLib(ti.inRS, ttExact(argsVal))
 	}
 	tags = append(tags, "lib:"+lib)
 
@@ -1457,7 +1587,7 @@ func (w *ttWorld) call(toks []string) (obs string, tags []string) {
 		if a != "absent" {
 			rawArgs, _ = ttUnhex(a)
 		}
-		w.probe(w.ctx, &CallToolRequest{Params: &CallToolParamsRaw{Name: w.name, Arguments: rawArgs}})
+		ti.probe(w.ctx, &CallToolRequest{Params: &CallToolParamsRaw{Name: name, Arguments: rawArgs}})
 		return false
 	}()
 	if panicked {
@@ -1476,26 +1606,29 @@ func (w *ttWorld) call(toks []string) (obs string, tags []string) {
 		res, err = handleSend[*CallToolResult](w.ctx, methodCallTool, newClientRequest(w.cs, Params(&ttRawParams{params})))
 	} else {
 		rawArgs, _ := ttUnhex(a)
-		res, err = w.cs.CallTool(w.ctx, &CallToolParams{Name: w.name, Arguments: json.RawMessage(rawArgs)})
+		res, err = w.cs.CallTool(w.ctx, &CallToolParams{Name: name, Arguments: json.RawMessage(rawArgs)})
 	}
 	if ob.bad != "" {
 		return "harness-error " + hxs(ob.bad), tags
+	}
+	if ob.inv > 0 && ob.who != name {
+		return "wrong-handler " + hxs(ob.who), tags
 	}
 	seen := "-"
 	if ob.inv > 0 {
 		seen = ttCanonBytes(ob.seen)
 	}
 	olib := "-"
-	if ob.inv > 0 && spec.herr == 0 && ob.hout != nil && w.hasOut {
+	if ob.inv > 0 && spec.herr == 0 && ob.hout != nil && ti.hasOut {
 		hv, perr := ttParse(ob.hout)
 		if perr == nil {
-			if hv == nil && w.outObj {
+			if hv == nil && ti.outObj {
 				hv = map[string]any{}
 			}
 			if ttHasBigNum(hv) {
 				tags = append(tags, "big-out")
 			}
-			olib = ttLib(w.outRS, ttExact(hv))
+			olib = ttLib(ti.outRS, ttExact(hv))
 		}
 	}
 	tags = append(tags, "olib:"+olib)
@@ -1588,7 +1721,19 @@ func (w *ttWorld) run(line string) (op, obs string, tags []string) {
 	}
 	switch toks[0] {
 	case "reset":
+		w.reset()
 		return "reset", "ok", []string{"reset"}
+	case "server":
+		k, err := strconv.Atoi(ttKV(toks, "cache"))
+		if err != nil || k < 0 {
+			return line, "bad-op", nil
+		}
+		w.server(k)
+		tg := []string{"server"}
+		if k > 0 {
+			tg = append(tg, "server-cache")
+		}
+		return line, "ok", tg
 	case "tool":
 		return w.tool(toks)
 	case "call":
@@ -1608,15 +1753,51 @@ func (w *ttWorld) run(line string) (op, obs string, tags []string) {
 
 // ---------------------------------------------------------------- generator
 
-func ttGenCase(r *rand.Rand, nCalls int) []string {
-	g := &ttGen{r: r, feat: map[string]bool{}}
-	reg := &ttRegs[r.Intn(len(ttRegs))]
-	g.lax = g.coin(0.06)
-	g.bigbound = g.coin(0.04)
+// a tool of the case under generation
+type ttGenTool struct {
+	name         string
+	reg          *ttReg
+	outTy        *ttTy
+	ischV, oschV any // the schemas values are generated against: declared, else the derived one
+}
+
+// an explicit schema generated earlier in the case, for handing the same *jsonschema.Schema over again
+type ttGenPtr struct {
+	id   int
+	tok  string
+	elem reflect.Type
+	out  bool
+}
+
+type ttCaseGen struct {
+	g     *ttGen
+	lines []string
+	ptrs  []ttGenPtr
+	nptr  int
+}
+
+func ttDerive(t reflect.Type) any {
+	t = ttElem(t)
+	if t.Kind() == reflect.Interface {
+		return map[string]any{"type": "object"}
+	}
+	s, err := jsonschema.ForType(t, &jsonschema.ForOptions{})
+	if err != nil {
+		return map[string]any{}
+	}
+	b, _ := json.Marshal(s)
+	v, _ := ttParse(b)
+	return v
+}
+
+// addTool emits one `tool` op: schemas derived or declared, declared ones raw or as a *Schema, which
+// may be one handed over earlier in the case for the same Go type and side.
+func (c *ttCaseGen) addTool(name string, reg *ttReg, pExplicitIn, pExplicitOut float64) *ttGenTool {
+	g := c.g
 	inTy, outTy := ttDescribe(reg.inTy), ttDescribe(reg.out)
 	isrc, osrc := "d", "d"
 	var isch, osch any
-	if g.coin(0.7) {
+	if g.coin(pExplicitIn) {
 		isrc = "e"
 		switch inTy.K {
 		case "struct":
@@ -1636,7 +1817,7 @@ func ttGenCase(r *rand.Rand, nCalls int) []string {
 	if outTy.K == "any" {
 		osrc = "none"
 	}
-	if g.coin(0.65) {
+	if g.coin(pExplicitOut) {
 		osrc = "e"
 		switch outTy.K {
 		case "any":
@@ -1654,85 +1835,185 @@ func ttGenCase(r *rand.Rand, nCalls int) []string {
 			osch = map[string]any{} // boolean root schemas are not sent as explicit output schemas
 		}
 	}
-	tok := func(src string, s any) string {
-		if src != "e" {
-			return "-"
-		}
-		return "x" + hxs(ttEnc(s))
-	}
 	form := g.pick("raw", "schema")
-	lines := []string{"reset", fmt.Sprintf("tool reg=%s form=%s isrc=%s osrc=%s isch=%s osch=%s", reg.name, form, isrc, osrc, tok(isrc, isch), tok(osrc, osch))}
-	// the schemas values are generated against: explicit, else the derived one
-	derive := func(t reflect.Type) any {
-		if t.Kind() == reflect.Pointer {
-			t = t.Elem()
+	// one side at a time: a fresh pointer, or one handed over before for the same Go type and side
+	side := func(src string, sch any, elem reflect.Type, out bool) (tok, ptr string, used any) {
+		if src != "e" {
+			return "-", "-", sch
 		}
-		if t.Kind() == reflect.Interface {
-			return map[string]any{"type": "object"}
+		tok = "x" + hxs(ttEnc(sch))
+		if form != "schema" {
+			return tok, "-", sch
 		}
-		s, err := jsonschema.ForType(t, &jsonschema.ForOptions{})
-		if err != nil {
-			return map[string]any{}
+		if g.coin(0.35) {
+			var cand []ttGenPtr
+			for _, p := range c.ptrs {
+				if p.elem == elem && p.out == out {
+					cand = append(cand, p)
+				}
+			}
+			if len(cand) > 0 {
+				p := cand[g.r.Intn(len(cand))]
+				b, _ := ttUnhex(p.tok)
+				v, _ := ttParse(b)
+				g.feat["ptr-again"] = true
+				return p.tok, strconv.Itoa(p.id), v
+			}
 		}
-		b, _ := json.Marshal(s)
-		v, _ := ttParse(b)
-		return v
+		c.nptr++
+		c.ptrs = append(c.ptrs, ttGenPtr{c.nptr, tok, elem, out})
+		return tok, strconv.Itoa(c.nptr), sch
 	}
-	ischV, oschV := isch, osch
+	itok, iptr, isch := side(isrc, isch, ttElem(reg.inTy), false)
+	otok, optr, osch := side(osrc, osch, ttElem(reg.out), true)
+	c.lines = append(c.lines, fmt.Sprintf("tool name=%s reg=%s form=%s isrc=%s osrc=%s isch=%s osch=%s iptr=%s optr=%s",
+		name, reg.name, form, isrc, osrc, itok, otok, iptr, optr))
+	t := &ttGenTool{name: name, reg: reg, outTy: outTy, ischV: isch, oschV: osch}
 	if isrc != "e" {
-		ischV = derive(reg.inTy)
+		t.ischV = ttDerive(reg.inTy)
 	}
 	if osrc != "e" {
 		if outTy.K == "any" {
-			oschV = true
+			t.oschV = true
 		} else {
-			oschV = derive(reg.out)
+			t.oschV = ttDerive(reg.out)
 		}
 	}
-	for i := 0; i < nCalls; i++ {
-		var args, atag string
-		switch x := g.r.Intn(100); {
-		case x < 3:
-			args, atag = "absent", "gen:absent"
-		case x < 7:
-			args, atag = "x"+hxs("null"), "gen:null"
-		case x < 9:
-			args, atag = "x"+hxs(g.pick("[1]", `"str"`, "5", "true", "[]")), "gen:nonobj"
-		default:
-			t, tg := g.instance(ischV)
-			args, atag = "x"+hxs(t), tg
-		}
-		out := ""
-		switch {
-		case outTy.K == "ptr" && g.coin(0.2):
-			out = "nilptr"
-		case outTy.K == "any" && g.coin(0.2):
-			out = "nilany"
-		default:
-			// an output the Out type can hold
-			for try := 0; try < 4 && out == ""; try++ {
-				t, _ := g.instance(oschV)
-				if try == 3 {
-					v, _ := g.valid(derive(reg.out), 0)
-					t = ttEnc(v)
-				}
-				p := reflect.New(reg.out)
-				if json.Unmarshal([]byte(t), p.Interface()) == nil {
-					out = "x" + hxs(t)
-				}
-			}
-			if out == "" {
-				out = "x" + hxs("null")
-			}
-		}
-		content := g.pick("n", "n", "n", "N", "0", "1", "1", "2")
-		herr := 0
-		if g.coin(0.05) {
-			herr = 1 + g.r.Intn(2)
-		}
-		lines = append(lines, fmt.Sprintf("call args=%s out=%s content=%s herr=%d gen=%s", args, out, content, herr, strings.TrimPrefix(atag, "gen:")))
+	return t
+}
+
+// addCall emits one `call` op addressed to tool t.
+func (c *ttCaseGen) addCall(t *ttGenTool) {
+	g := c.g
+	var args, atag string
+	switch x := g.r.Intn(100); {
+	case x < 3:
+		args, atag = "absent", "gen:absent"
+	case x < 7:
+		args, atag = "x"+hxs("null"), "gen:null"
+	case x < 9:
+		args, atag = "x"+hxs(g.pick("[1]", `"str"`, "5", "true", "[]")), "gen:nonobj"
+	default:
+		tx, tg := g.instance(t.ischV)
+		args, atag = "x"+hxs(tx), tg
 	}
-	return lines
+	out := ""
+	switch {
+	case t.outTy.K == "ptr" && g.coin(0.2):
+		out = "nilptr"
+	case t.outTy.K == "any" && g.coin(0.2):
+		out = "nilany"
+	default:
+		// an output the Out type can hold
+		for try := 0; try < 4 && out == ""; try++ {
+			tx, _ := g.instance(t.oschV)
+			if try == 3 {
+				v, _ := g.valid(ttDerive(t.reg.out), 0)
+				tx = ttEnc(v)
+			}
+			p := reflect.New(t.reg.out)
+			if json.Unmarshal([]byte(tx), p.Interface()) == nil {
+				out = "x" + hxs(tx)
+			}
+		}
+		if out == "" {
+			out = "x" + hxs("null")
+		}
+	}
+	content := g.pick("n", "n", "n", "N", "0", "1", "1", "2")
+	herr := 0
+	if g.coin(0.05) {
+		herr = 1 + g.r.Intn(2)
+	}
+	c.lines = append(c.lines, fmt.Sprintf("call tool=%s args=%s out=%s content=%s herr=%d gen=%s", t.name, args, out, content, herr, strings.TrimPrefix(atag, "gen:")))
+}
+
+// ttRelated lists the registrations sharing the In or the Out Go type (pointers stripped) with reg.
+func ttRelated(reg *ttReg) []*ttReg {
+	var o []*ttReg
+	for i := range ttRegs {
+		q := &ttRegs[i]
+		if ttElem(q.inTy) == ttElem(reg.inTy) && q.inTy.Kind() != reflect.Interface ||
+			ttElem(q.out) == ttElem(reg.out) && q.out.Kind() != reflect.Interface ||
+			ttElem(q.inTy) == ttElem(reg.out) || ttElem(q.out) == ttElem(reg.inTy) {
+			o = append(o, q)
+		}
+	}
+	return o
+}
+
+// ttGenCase generates one case. 45 %: one tool on one server (as a program with a single AddTool);
+// 55 %: a history — one or two servers, each on cache 0 (none), 1 or 2 of the case, two to four tools
+// in all whose Go types mostly overlap (so that the type entries of a shared cache are hit), each side
+// of each tool independently derived or declared, names sometimes re-used (replacement), calls after
+// every registration addressed to the newest or to an earlier tool of the current server.
+func ttGenCase(r *rand.Rand, nCalls int) []string {
+	g := &ttGen{r: r, feat: map[string]bool{}}
+	c := &ttCaseGen{g: g, lines: []string{"reset"}}
+	g.lax = g.coin(0.06)
+	g.bigbound = g.coin(0.04)
+	pivot := &ttRegs[r.Intn(len(ttRegs))]
+	if g.coin(0.45) {
+		c.lines = append(c.lines, fmt.Sprintf("server cache=%d", g.r.Intn(2)))
+		t := c.addTool("t1", pivot, 0.7, 0.65)
+		for i := 0; i < nCalls; i++ {
+			c.addCall(t)
+		}
+		return c.lines
+	}
+	related := ttRelated(pivot)
+	nServers := 1 + g.r.Intn(2)
+	nTools := 2 + g.r.Intn(3)
+	left := nCalls + 2
+	n := 0
+	for sv := 0; sv < nServers; sv++ {
+		c.lines = append(c.lines, fmt.Sprintf("server cache=%d", []int{0, 1, 1, 1, 2}[g.r.Intn(5)]))
+		var cur []*ttGenTool
+		k := nTools / nServers
+		if sv == nServers-1 {
+			k = nTools - n
+		}
+		if k < 1 {
+			k = 1
+		}
+		for i := 0; i < k; i++ {
+			n++
+			reg := pivot
+			if n > 1 {
+				if g.coin(0.7) {
+					reg = related[g.r.Intn(len(related))]
+				} else {
+					reg = &ttRegs[r.Intn(len(ttRegs))]
+				}
+			}
+			name := fmt.Sprintf("t%d", n)
+			if len(cur) > 0 && g.coin(0.1) {
+				name = cur[g.r.Intn(len(cur))].name // replaces that tool
+				for j, t := range cur {
+					if t.name == name {
+						cur = append(cur[:j], cur[j+1:]...)
+						break
+					}
+				}
+			}
+			t := c.addTool(name, reg, 0.5, 0.5)
+			cur = append(cur, t)
+			// calls: more to the tools registered later in the history
+			q := 1 + g.r.Intn(3)
+			if n == nTools {
+				q = left
+			}
+			for ; q > 0 && left > 0; q-- {
+				left--
+				tgt := t
+				if g.coin(0.3) {
+					tgt = cur[g.r.Intn(len(cur))]
+				}
+				c.addCall(tgt)
+			}
+		}
+	}
+	return c.lines
 }
 
 func TestVerifTypedTool(t *testing.T) {
